@@ -1189,20 +1189,24 @@ pub fn time_1(value: &Value) -> Value {
   value_null!("time_1")
 }
 
+/// Returns the components of a time when the numbers are in range, a number that is not finite never is.
+fn time_components(hour: &FeelNumber, minute: &FeelNumber, second: &FeelNumber) -> Option<(u8, u8, u8, u64)> {
+  if (0..24).contains(hour) && (0..60).contains(minute) && (0..60).contains(second) {
+    let seconds = second.trunc();
+    let nanoseconds = (second.fract() * FeelNumber::nano()).trunc();
+    Some((hour.to_u8()?, minute.to_u8()?, seconds.to_u8()?, nanoseconds.to_u64()?))
+  } else {
+    None
+  }
+}
+
 ///
 pub fn time_3(hour_value: &Value, minute_value: &Value, second_value: &Value) -> Value {
   if let Value::Number(hour) = hour_value {
     if let Value::Number(minute) = minute_value {
       if let Value::Number(second) = second_value {
-        if (0..24).contains(hour) && (0..60).contains(minute) && (0..60).contains(second) {
-          let seconds = second.trunc();
-          let nanoseconds = (second.fract() * FeelNumber::nano()).trunc();
-          if let Some(feel_time) = FeelTime::new_hms_opt(
-            hour.to_u8().unwrap(),
-            minute.to_u8().unwrap(),
-            seconds.to_u8().unwrap(),
-            nanoseconds.to_u64().unwrap(),
-          ) {
+        if let Some((hour, minute, second, nanosecond)) = time_components(hour, minute, second) {
+          if let Some(feel_time) = FeelTime::new_hms_opt(hour, minute, second, nanosecond) {
             return Value::Time(feel_time);
           }
         }
@@ -1217,31 +1221,18 @@ pub fn time_4(hour_value: &Value, minute_value: &Value, second_value: &Value, du
   if let Value::Number(hour) = hour_value {
     if let Value::Number(minute) = minute_value {
       if let Value::Number(second) = second_value {
-        if (0..24).contains(hour) && (0..60).contains(minute) && (0..60).contains(second) {
-          let seconds = second.trunc();
-          let nanoseconds = (second.fract() * FeelNumber::nano()).trunc();
+        if let Some((hour, minute, second, nanosecond)) = time_components(hour, minute, second) {
           match duration_value {
             Value::DaysAndTimeDuration(duration) => {
               // the hour magnitude of the offset is limited to at most 14, like in time literals
               if let Some(offset) = i32::try_from(duration.as_seconds()).ok().filter(|offset| offset.unsigned_abs() < 15 * 3_600) {
-                if let Some(feel_time) = FeelTime::new_hmso_opt(
-                  hour.to_u8().unwrap(),
-                  minute.to_u8().unwrap(),
-                  seconds.to_u8().unwrap(),
-                  nanoseconds.to_u64().unwrap(),
-                  offset,
-                ) {
+                if let Some(feel_time) = FeelTime::new_hmso_opt(hour, minute, second, nanosecond, offset) {
                   return Value::Time(feel_time);
                 }
               }
             }
             Value::Null(_) => {
-              if let Some(feel_time) = FeelTime::new_hms_opt(
-                hour.to_u8().unwrap(),
-                minute.to_u8().unwrap(),
-                seconds.to_u8().unwrap(),
-                nanoseconds.to_u64().unwrap(),
-              ) {
+              if let Some(feel_time) = FeelTime::new_hms_opt(hour, minute, second, nanosecond) {
                 return Value::Time(feel_time);
               }
             }
